@@ -194,6 +194,23 @@ struct TreeSim {
 					if (!fits) nontrivial = true;
 					if (lf.h) { K.fail("C16", "handle-returned-for-refused-leaf", "tree-builder", "a refused add returned a leaf handle"); }
 				}
+			} else if (op.k == "TB_PROOF" && !closed && !leaves.empty()) {
+				// proofs read while the tree is still open: the chain of an accepted leaf leads to the root of the subtree that holds
+				// it now, i.e. to one of the roots of the canonical forest (in particular right after a leaf was refused)
+				size_t from = (size_t)op.arg(0) % leaves.size(), cnt = 1 + (size_t)op.arg(1) % 8;
+				for (size_t i = from; i < leaves.size() && i < from + cnt; i++) {
+					if (leaves[i].md) continue;
+					KSI_AggregationHashChain *ch = nullptr;
+					int r2 = KSI_TreeLeafHandle_getAggregationChain(leaves[i].h, &ch);
+					if (r2 != KSI_OK) { K.fail("C16", "chain-extraction-failed", "open-tree", "leaf %zu: getAggregationChain on the open tree failed with 0x%x", i, r2); break; }
+					AggChain ac; std::string out = leaves[i].imp; int el = leaves[i].level;
+					bool good = chain_of(ctx, ch, ac) && ac.input == leaves[i].imp && (ac.links.empty() || fold_agg(ac, leaves[i].level, out, el));
+					KSI_AggregationHashChain_free(ch);
+					bool found = false;
+					for (auto &sl : model.stack) if (sl && !sl->md && sl->imp == out && sl->level == el) found = true;
+					if (!good || !found) { K.fail("C16", "open-tree-proof-leads-nowhere", "tree-builder", "leaf %zu (level %d): its chain read from the open tree does not lead to a root of the canonical forest (level %d)", i, leaves[i].level, el); break; }
+					K.count("outcome.open_tree_proof");
+				}
 			} else if (op.k == "TB_CLOSE" && !closed) {
 				int res = KSI_TreeBuilder_close(b);
 				K.ev("TB_CLOSE -> 0x%x", res);
@@ -744,8 +761,11 @@ struct HistoryEngine : run::Engine {
 				bool uniform = g.chance(1, 2);
 				bool faulty = g.chance(1, 4);
 				int lv0 = (int)(g.chance(1, 5) ? g.range(0, 255) : g.range(0, 3));
+				bool near_limit = g.chance(1, 5);   // a few leaves just below level 255 among low ones: refusals in the middle of a carry chain
+				bool proofs = g.chance(1, 2);
 				for (int i = 0; i < n; i++) {
-					int level = uniform ? lv0 : (int)(g.chance(1, 8) ? g.range(0, 255) : g.range(0, 6));
+					if (proofs && g.chance(1, 6)) p.ops.push_back({"TB_PROOF", {(int64_t)g.below(64), (int64_t)g.below(8)}});
+					int level = near_limit ? (int)(g.chance(1, 4) ? g.range(250, 255) : g.range(0, 2)) : uniform ? lv0 : (int)(g.chance(1, 8) ? g.range(0, 255) : g.range(0, 6));
 					p.ops.push_back({"TB_ADD", {level, (int64_t)g.below(50), faulty && g.chance(1, 6) ? (int64_t)g.range(1, 12) : 0, with_md && g.chance(1, 4) ? (int64_t)g.range(1, 15) : 0}});
 					if (g.chance(1, 40)) p.ops.push_back({"TB_CLOSE", {}});
 				}
